@@ -84,7 +84,8 @@ def from_model(s, i):
     src = [dict(x, t=1000, c=j % 7, k="hit", n=0) for j, x in enumerate(s["src"])]
     if i % 3 == 0 and src:
         src[0] = dict(src[0], k="hold", n=500)
-    tgt = [{"t": 1000, "c": j, "n": 0 if (i + j) % 4 else 250, "k": "hit" if (i + j) % 4 else "hold",
+    # (a hold may have length 0)
+    tgt = [{"t": 1000, "c": j, "n": 0 if (i + j) % 4 or (i + j) % 8 == 4 else 250, "k": "hit" if (i + j) % 4 else "hold",
             "hs": 0, "vol": 0, "file": ""} for j in range(s["ntgt"])]
     own = i % 5 == 0            # the target comes with sounds of its own
     tgt.append({"t": 2000, "c": 3, "n": 0, "k": "hit", "hs": 2 if own else 0, "vol": 30 if own else 0,
@@ -109,7 +110,7 @@ def random_scenarios(n):
                             "file": r.choice(["", "", "a.wav", "b.wav", "c.wav"])})
             for _ in range(r.randint(0, 3)):
                 kind = r.choice(["hit", "hold"])
-                tgt.append({"t": t, "c": r.randint(0, 6), "n": 125 if kind == "hold" else 0, "k": kind,
+                tgt.append({"t": t, "c": r.randint(0, 6), "n": r.choice([125, 125, 0]) if kind == "hold" else 0, "k": kind,
                             "hs": r.choice([0, 0, 2, 8]), "vol": r.choice([0, 25]), "file": r.choice(["", "", "t.wav"])})
         if not tgt:
             tgt.append({"t": 3000, "c": 0, "n": 0, "k": "hit", "hs": 0, "vol": 0, "file": ""})
